@@ -3,7 +3,7 @@
 # Evaluates a seeded change WITHOUT touching /repo: copies /repo's working tree, applies the
 # patch to the copy and points the driver at it (VERIF_REPO); evidence/replays are diverted.
 id=$1; prop=$2; shift 2
-w=/var/tmp/seeded-eval-$id-$prop
+w=/var/tmp/seeded-eval-$id-$prop${EVAL_SUFFIX:-}
 rm -rf $w; mkdir -p $w/evidence $w/replays
 rsync -a --exclude /target --exclude .git /repo/ $w/repo/
 ( cd $w/repo && patch -p1 -s < /verif/seeded/$id/patch.diff ) || { echo "$id: patch does not apply"; exit 3; }
